@@ -124,10 +124,13 @@ Definition exn_eqb (a b : exn) : bool :=
      fl_comp_precheck   add_component_sliver validates the ids it is going to add before it adds anything (C09-6, 94aa751)
      fl_connect_undo    connect_interface removes the new service port when its link cannot be made (C09-7, 7b7379b)
      fl_peer_checks     peer refuses a service peered with itself and a derived link name already in use (C07-7, 39e308b)
-     fl_props_check     set_properties(name=...) checks the scope like set_property / rename (proposed C07-8) *)
+     fl_props_check     set_properties(name=...) checks the scope like set_property / rename (C07-8, e7f5960)
+     fl_link_cp_only    add_link refuses arguments that are not interfaces (proposed C07-9)
+     fl_disc_peering    disconnect_interface refuses a peering port, i.e. a service port whose peer is a service port:
+                        such a port goes with unpeer (proposed C07-10) *)
 Record flags := mkFlags { fl_rename_check : bool; fl_link_refuse : bool; fl_skip_gone : bool; fl_connect_names : bool;
                           fl_comp_precheck : bool; fl_connect_undo : bool; fl_peer_checks : bool;
-                          fl_props_check : bool }.
+                          fl_props_check : bool; fl_link_cp_only : bool; fl_disc_peering : bool }.
 
 Record st := mkSt { sg : graph; sdr : list str }.
 Inductive res (A : Type) := Ok (a : A) | Err (e : exn).
